@@ -205,7 +205,9 @@ def container(ctx, c):
     text = text_of(c)
     if form in ('pathstr', 'path'):
         d = ctx.tmpdir()
-        p = os.path.join(d, 'in_%d.pdb' % (abs(hash(text)) % 10**9))
+        # the SAME two file names are rewritten with each case's text: a path names whatever the file holds NOW, so a
+        # parse that remembers what an earlier file of that name held (a content cache keyed by path) shows up as a difference
+        p = os.path.join(d, 'input_%d.pdb' % (len(text) % 2))
         with open(p, 'w') as f:
             f.write(text)
         return (p if form == 'pathstr' else Path(p)), p
